@@ -106,9 +106,67 @@ def make_env():
     reg.map_imperatively(C, tc, properties={"b": orm.relationship(B, back_populates="cs")})
     orm.configure_mappers()
     env.entities = {"A": A, "B": B, "C": C}
+    env.custom_types = _custom_types(sa)
     env.aliases = {}  # (key, name) -> alias object, stable across builds (identity is part of cache keys)
     _ENV = env
     return env
+
+
+def _custom_types(sa):
+    """stateful user-defined types.  NC / NCD declare cache_ok = False (their state is not in a cache key, so
+    anything holding them must be uncacheable); CK and Wrap are cacheable (their arguments are in the key)."""
+    from sqlalchemy.types import TypeDecorator, UserDefinedType
+
+    class NC(UserDefinedType):
+        cache_ok = False
+
+        def __init__(self, tag="a"):
+            self.tag = tag
+
+        def get_col_spec(self, **kw):
+            return "NC_" + self.tag
+
+        def bind_processor(self, dialect):
+            tag = self.tag
+            return lambda v: v if v is None else "%s:%s" % (tag, v)
+
+        def result_processor(self, dialect, coltype):
+            tag = self.tag
+            return lambda v: v if v is None else "%s|%s" % (tag, v)
+
+    class CK(NC):
+        cache_ok = True
+
+        def get_col_spec(self, **kw):
+            return "CK_" + self.tag
+
+    class NCD(TypeDecorator):
+        impl = sa.String
+        cache_ok = False
+
+        def __init__(self, tag="a"):
+            self.tag = tag
+            super().__init__(30 if tag == "a" else 40)
+
+        def process_bind_param(self, value, dialect):
+            return value if value is None else "%s:%s" % (self.tag, value)
+
+        def process_result_value(self, value, dialect):
+            return value if value is None else "%s|%s" % (self.tag, value)
+
+    class Wrap(TypeDecorator):
+        """a cacheable TypeDecorator whose constructor takes a TypeEngine"""
+        impl = sa.String
+        cache_ok = True
+
+        def __init__(self, inner):
+            self.inner = inner
+            super().__init__()
+
+        def load_dialect_impl(self, dialect):
+            return dialect.type_descriptor(self.inner)
+
+    return {"NC": NC, "NCD": NCD, "CK": CK, "Wrap": Wrap}
 
 
 def alias_of(env, kind, key, name):
@@ -278,9 +336,78 @@ def type_name(t):
     return t if isinstance(t, str) else t[0]
 
 
+# types built from other types.  ["with_variant", [base, [[dialect, type], ...]], {}], ["ARRAY", [item], {}],
+# ["Wrap", [inner], {}] (a cacheable TypeDecorator taking a TypeEngine argument), ["PickleType", [], {"impl": t}],
+# and user types with state: ["NC", [tag], {}] (UserDefinedType, cache_ok=False), ["NCD", [tag], {}]
+# (TypeDecorator, cache_ok=False), ["CK", [tag], {}] (UserDefinedType, cache_ok=True).
+COMPOSITE_TYPES = ("with_variant", "ARRAY", "Wrap", "PickleType")
+USER_TYPES = ("NC", "NCD", "CK")
+VARIANT_DIALECTS = ["sqlite", "postgresql", "mysql", "mssql", "oracle"]
+_SIMPLE_FOR = {"int": ["Integer", "BigInteger", "Numeric", "Float", "String"], "str": ["String", "Text", "Integer"]}
+
+
+def random_simple_type(rng, fam="int"):
+    t = rng.choice(_SIMPLE_FOR[fam])
+    if rng.random() < 0.5:
+        a = rng.choice(TYPE_ARG_VARIANTS[t])
+        return [t, a[0], a[1]]
+    return t
+
+
+def random_composite_type(rng, fam="int", depth=1):
+    """a type that holds other types (with_variant / ARRAY / TypeDecorator with a type argument / PickleType impl)
+    or a stateful user-defined type"""
+    c = rng.random()
+    inner = (random_composite_type(rng, fam, depth - 1) if depth > 0 and rng.random() < 0.25 else
+             [rng.choice(USER_TYPES), [rng.choice(["a", "b"])], {}] if rng.random() < 0.45 else random_simple_type(rng, fam))
+    if c < 0.4:
+        dns = rng.sample(VARIANT_DIALECTS, rng.choice([1, 1, 2]))
+        return ["with_variant", [random_simple_type(rng, fam), [[dn, random_simple_type(rng, fam) if rng.random() < 0.8 else inner] for dn in dns]], {}]
+    if c < 0.6:
+        return ["ARRAY", [inner], {}]
+    if c < 0.8:
+        return ["Wrap", [inner], {}]
+    if c < 0.88:
+        return ["PickleType", [], {"impl": ["LargeBinary", [rng.choice([10, 20])], {}]}]
+    return [rng.choice(USER_TYPES), [rng.choice(["a", "b"])], {}]
+
+
+def _is_typespec(x):
+    return isinstance(x, str) or (isinstance(x, list) and len(x) == 3 and isinstance(x[0], str) and isinstance(x[1], list) and isinstance(x[2], dict))
+
+
 def type_arg_variants(t, rng):
-    """the same type class with other constructor arguments"""
+    """the same type class with other constructor arguments (for types holding types: one inner change)"""
     name = type_name(t)
+    if name in USER_TYPES:
+        return [name, ["b" if t[1][0] == "a" else "a"], {}]
+    if name in ("ARRAY", "Wrap"):
+        inner = t[1][0]
+        alt = type_arg_variants(inner, rng)
+        if alt is None or rng.random() < 0.2:
+            alt = _other(rng, ["Integer", "String", ["NC", ["a"], {}], ["NC", ["b"], {}], ["CK", ["a"], {}]], inner)
+        return [name, [alt], {}]
+    if name == "PickleType":
+        return ["PickleType", [], {"impl": type_arg_variants(t[2]["impl"], rng) or ["LargeBinary", [30], {}]}]
+    if name == "with_variant":
+        base, variants = t[1]
+        variants = [list(v) for v in variants]
+        c = rng.random()
+        i = rng.randrange(len(variants))
+        if c < 0.35:      # other class for one dialect
+            variants[i][1] = _other(rng, ["Integer", "String", "Text", "Numeric", "BigInteger"], type_name(variants[i][1]))
+        elif c < 0.6:     # other arguments for one dialect
+            variants[i][1] = type_arg_variants(variants[i][1], rng) or _other(rng, ["Integer", "Text"], type_name(variants[i][1]))
+        elif c < 0.75:    # other dialect
+            variants[i][0] = _other(rng, [d for d in VARIANT_DIALECTS if d not in [v[0] for v in variants]] + [variants[i][0]], variants[i][0])
+        elif c < 0.9:     # one more / one less dialect
+            if len(variants) > 1:
+                variants.pop(i)
+            else:
+                variants.append([_other(rng, VARIANT_DIALECTS, variants[0][0]), random_simple_type(rng, "int")])
+        else:
+            base = type_arg_variants(base, rng) or _other(rng, ["Integer", "String"], type_name(base))
+        return ["with_variant", [base, variants], {}]
     cur = [[], {}] if isinstance(t, str) else [t[1], t[2]]
     alts = [v for v in TYPE_ARG_VARIANTS.get(name, []) if v != cur]
     if not alts:
@@ -337,12 +464,16 @@ class Gen:
             return ["neg", self.e_int(scope, d - 1)]
         if c < 0.88:
             t = r.choice(["Integer", "BigInteger", "Numeric", "Numeric", "Float"])
+            if r.random() < 0.3:
+                return ["cast", self.e_int(scope, d - 1), random_composite_type(r, "int")]
             return ["cast", self.e_int(scope, d - 1), (type_arg_variants(t, r) or t) if r.random() < 0.6 else t]
         if c < 0.90:
             return ["bind", self.fresh("bp"), "int", {"callable": True} if r.random() < 0.3 else {}]
         if c < 0.93:
             return ["abind", "int", {"callable": True} if r.random() < 0.5 else {}]
         if c < 0.96 and cols:
+            if r.random() < 0.35:
+                return ["type_coerce", r.choice(cols), random_composite_type(r, "int")]
             return ["type_coerce", r.choice(cols), r.choice(["Integer", ["Numeric", [10, 0], {}], ["Numeric", [10], {}], ["Float", [], {"asdecimal": True}]])]
         return ["scalar", self.simple_scalar(scope)]
 
@@ -363,6 +494,8 @@ class Gen:
             return ["func", f, [self.e_str(scope, d - 1)]]
         if c < 0.88:
             t = r.choice(["String", "Text"])
+            if r.random() < 0.3:
+                return ["cast", self.e_int(scope, d - 1), random_composite_type(r, "str")]
             return ["cast", self.e_int(scope, d - 1), (type_arg_variants(t, r) or t) if r.random() < 0.5 else t]
         if c < 0.93:
             return ["abind", "str", {"callable": True} if r.random() < 0.5 else {}]
@@ -513,6 +646,14 @@ class Gen:
                 cols.append(["c", ["col", fk, "id"]])
                 if exported is not None:
                     exported["id"] = "int"
+            if not want_names and r.random() < 0.3:
+                # an explicitly typed column expression: cast() / type_coerce() to a type with arguments,
+                # dialect variants or nested types
+                fam = r.choice(["int", "str"])
+                src = self.cols_of(scope, fam) or self.cols_of(scope, "int")
+                if src:
+                    t = random_composite_type(r, fam) if r.random() < 0.65 else random_simple_type(r, fam)
+                    cols.append(["label", self.fresh("ty"), [r.choice(["cast", "cast", "type_coerce"]), r.choice(src), t]])
         spec["cols"] = cols
         where = [self.e_bool(scope, d) for _ in range(r.choice([0, 1, 1, 2]))]
         if r.random() < 0.3:
@@ -522,6 +663,8 @@ class Gen:
                 fl = {"callable": True} if r.random() < 0.5 else {}
                 if r.random() < 0.3:
                     fl["type"] = type_arg_variants("Numeric", r)
+                elif r.random() < 0.25:
+                    fl["type"] = random_composite_type(r, "int")
                 b = ["abind", "int", fl] if r.random() < 0.6 else ["bind", self.fresh("bp"), "int", fl]
                 where.append(["bin", r.choice(CMP), r.choice(ic), b])
         if orm and froms[0][0] == "ent" and r.random() < 0.2:
@@ -731,7 +874,8 @@ class Gen:
         spec = {"k": "text", "sql": f"SELECT id, {col} FROM {t} WHERE {col} {op} :p1 AND id > :p2 ORDER BY id",
                 "binds": ["p1", "p2"]}
         if r.random() < 0.5:
-            spec["columns"] = [["id", "Integer"], [col, r.choice(["Integer", ["Numeric", [10], {}], ["Numeric", [10, 0], {}], ["Float", [], {}]])]]
+            spec["columns"] = [["id", "Integer"], [col, random_composite_type(r, "int") if r.random() < 0.35 else
+                                                   r.choice(["Integer", ["Numeric", [10], {}], ["Numeric", [10, 0], {}], ["Float", [], {}]])]]
             if r.random() < 0.5:
                 spec["wrap"] = "subquery"
         return spec
@@ -759,11 +903,23 @@ class Builder:
     def type_(self, t):
         sa = self.sa
         name = type_name(t)
-        cls = {"Integer": sa.Integer, "String": sa.String, "Float": sa.Float, "Numeric": sa.Numeric,
-               "BigInteger": sa.BigInteger, "Text": sa.Text, "Boolean": sa.Boolean, "Date": sa.Date}[name]
+        if name == "with_variant":
+            base, variants = t[1]
+            typ = self.type_(base)
+            for dn, vt in variants:
+                typ = typ.with_variant(self.type_(vt), dn)
+            return typ
+        if name in USER_TYPES or name == "Wrap":
+            cls = self.env.custom_types[name]
+        else:
+            cls = {"Integer": sa.Integer, "String": sa.String, "Float": sa.Float, "Numeric": sa.Numeric,
+                   "BigInteger": sa.BigInteger, "Text": sa.Text, "Boolean": sa.Boolean, "Date": sa.Date,
+                   "ARRAY": sa.ARRAY, "PickleType": sa.PickleType, "LargeBinary": sa.LargeBinary}[name]
         if isinstance(t, str):
             return cls()
-        return cls(*t[1], **t[2])
+        args = [self.type_(a) if (name in ("ARRAY", "Wrap") and _is_typespec(a)) else a for a in t[1]]
+        kw = {k: (self.type_(v) if k == "impl" and _is_typespec(v) else v) for k, v in t[2].items()}
+        return cls(*args, **kw)
 
     def tag_type(self, tag):
         sa = self.sa
@@ -1318,6 +1474,10 @@ def _node_mutations(node, rng, frommap=None, top=True):
             out.append(("labelname", ["label", node[1] + "z", node[2]]))
         elif h == "cast":
             out.append(("casttype", ["cast", node[1], _other(rng, CAST_TYPES, type_name(node[2]))]))
+            if type_name(node[2]) not in COMPOSITE_TYPES + USER_TYPES:
+                out.append(("typewrap", ["cast", node[1], rng.choice([
+                    ["with_variant", [node[2], [[rng.choice(VARIANT_DIALECTS), random_simple_type(rng, "int")]]], {}],
+                    ["ARRAY", [node[2]], {}], ["Wrap", [node[2]], {}]])]))
             alt = type_arg_variants(node[2], rng)
             if alt:
                 out.append(("typearg", ["cast", node[1], alt]))
@@ -1554,7 +1714,7 @@ def _node_mutations(node, rng, frommap=None, top=True):
     return out
 
 
-def perturb(spec, rng, n=8, prefer=("typearg", "bindcallable", "param_keys", "bindflag", "for_update_skip_locked", "prefix_dialect", "inlen")):
+def perturb(spec, rng, n=8, prefer=("typearg", "typewrap", "bindcallable", "param_keys", "bindflag", "for_update_skip_locked", "prefix_dialect", "inlen")):
     """up to ``n`` (tag, spec') near-copies, each differing from ``spec`` in one attribute;
     rare tags listed in ``prefer`` are taken first when available"""
     cands = []
